@@ -402,6 +402,27 @@ func typedRewrites(fset *token.FileSet, f *ast.File, info *types.Info, ed *edito
 		p := fset.Position(n.Pos())
 		return fmt.Sprintf("%s:%d", relFile(root, fn), p.Line)
 	}
+	// hasTry: the receiver's static type offers TryLock (sync.Mutex, sync.RWMutex, structs
+	// embedding them) and the receiver expression is free of calls (it is evaluated twice).
+	hasTry := func(sel *ast.SelectorExpr) bool {
+		tv, ok := info.Types[sel.X]
+		if !ok || tv.Type == nil {
+			return false
+		}
+		pure := true
+		ast.Inspect(sel.X, func(n ast.Node) bool {
+			if _, ok := n.(*ast.CallExpr); ok {
+				pure = false
+			}
+			return true
+		})
+		if !pure {
+			return false
+		}
+		obj, _, _ := types.LookupFieldOrMethod(tv.Type, true, nil, "TryLock")
+		_, isFunc := obj.(*types.Func)
+		return isFunc
+	}
 	syncMethod := func(call *ast.CallExpr) (string, *ast.SelectorExpr) {
 		sel, ok := call.Fun.(*ast.SelectorExpr)
 		if !ok {
@@ -498,9 +519,24 @@ func typedRewrites(fset *token.FileSet, f *ast.File, info *types.Info, ed *edito
 				switch name {
 				case "Lock", "RLock":
 					report.SyncSites = append(report.SyncSites, where(x)+" "+name)
-					ed.insert(off(x.Pos()), rtImportName+".CSEnter(")
-					ed.replace(off(sel.End()), off(x.End()), ")")
+					if hasTry(sel) {
+						// preemptible critical section: acquisition becomes TryLock + forced
+						// yield while the lock is held by a parked client, so lock-order
+						// deadlocks and atomicity violations between two sections can show
+						try := "TryLock"
+						if name == "RLock" {
+							try = "TryRLock"
+						}
+						recv := text(sel.X)
+						ed.replace(off(x.Pos()), off(x.End()), rtImportName+".Lock("+recv+"."+try+", "+recv+"."+name+")")
+					} else {
+						ed.insert(off(x.Pos()), rtImportName+".CSEnter(")
+						ed.replace(off(sel.End()), off(x.End()), ")")
+					}
 				case "Unlock", "RUnlock":
+					if hasTry(sel) {
+						break // plain unlock: the section was entered through zzverifrt.Lock
+					}
 					report.SyncSites = append(report.SyncSites, where(x)+" "+name)
 					ed.insert(off(x.Pos()), rtImportName+".CSExit(")
 					ed.replace(off(sel.End()), off(x.End()), ")")
@@ -935,6 +971,23 @@ func csInc() { NoPreempt++ }
 func csDec() {
 	if NoPreempt > 0 {
 		NoPreempt--
+	}
+}
+
+// Blocked is called when a lock is held by another (parked) client: the simulator must
+// run somebody else.
+var Blocked func()
+
+// Lock acquires a mutex cooperatively: under simulation it never blocks the thread.
+func Lock(try func() bool, lock func()) {
+	if Hook == nil {
+		lock()
+		return
+	}
+	for !try() {
+		if b := Blocked; b != nil {
+			b()
+		}
 	}
 }
 
